@@ -1,28 +1,122 @@
-(* C01 — stree.Tree is a sorted set.  Only statements, each closed by [exact] of a lemma proved in
-   Stree/StreeProofs*.v. *)
-From Coq Require Import ZArith List.
+(* C01 — stree.Tree is a sorted set: results and contents match a reference set.
+   Only statements, each closed by [exact] of a lemma proved in Stree/StreeProofs*.v.
+
+   Vocabulary (Stree/StreeModel.v, Stree/StreeSpec.v):
+   [run cmp limit ops]   all outputs of the history [ops] on the model of stree (several trees:
+                         New and Clone create tree number 0, 1, ...; Add/Replace/Remove/Clear and
+                         Len/IsEmpty/Get/Min/Max/Inorder/InorderAfter name a tree); [limit] is the
+                         depth-limit function (beta, n), an arbitrary parameter;
+   [spec_run cmp ops]    the same history on the reference: one strictly ascending list per tree,
+                         insert-if-absent / replace / delete, filter for InorderAfter, prefix for a
+                         consumer that stops;
+   [total_preorder cmp]  cmp a b and cmp b a have opposite signs, <= is transitive. *)
+From Coq Require Import ZArith List Lia.
 Import ListNotations.
-From Mds Require Import Stree.StreeModel Stree.StreeSpec Stree.StreeProofsBase.
+From Mds Require Import Stree.StreeModel Stree.StreeSpec Stree.StreeProofsBase Stree.StreeProofsSet
+  Stree.StreeProofsHist.
 Local Open Scope Z_scope.
 
+(* For every comparison function, every depth-limit function, every balance factor (it is an
+   argument of New inside the history) and every history of New/Add/Replace/Remove/Clear/Clone and
+   observations over any number of trees: every output of the tree equals the reference's.
+   Outputs are the boolean results, Len, IsEmpty, Get (the stored representative), Min, Max, Inorder
+   and InorderAfter with a consumer that stops after any number of elements.  Because Inorder is
+   an output, the contents are compared element for element, including WHICH representative of a
+   class is stored.  New with beta outside 0..1000 panics in both; an oracle (the representatives
+   the unstable sort kept) that is not a strictly ascending choice of given keys covering every
+   class is rejected by both. *)
+Theorem C01_history : forall (T : Type) (cmp : T -> T -> Z), total_preorder cmp ->
+  forall (limit : Z -> Z -> Z) (ops : list (op T)),
+  run cmp limit ops = spec_run cmp ops.
+Proof. exact run_refines. Qed.
+Print Assumptions C01_history.
+
+(* No run-time failure: with balance factors in range and acceptable oracles, no operation of any
+   history panics (no nil dereference in rotateLeft or popMinRight, no index out of range in
+   extract or inorderAfter) and no fuelled loop of the model runs out of fuel. *)
+Theorem C01_no_failure : forall (T : Type) (cmp : T -> T -> Z), total_preorder cmp ->
+  forall (limit : Z -> Z -> Z) (ops : list (op T)),
+  Forall (ok_new T cmp) ops ->
+  forall x, In x (run cmp limit ops) -> x <> RPanic /\ x <> RFuel /\ x <> RBadOracle.
+Proof. exact run_no_failure. Qed.
+Print Assumptions C01_no_failure.
+
+(* What New may keep: an accepted choice is strictly ascending, consists of keys that were given,
+   and holds an equivalent of every given key. *)
+Theorem C01_new_choice : forall (T : Type) (cmp : T -> T -> Z), total_preorder cmp ->
+  forall keys picks kept, s_new cmp keys picks = Some kept ->
+  sorted cmp kept /\ (forall x, In x kept -> In x keys)
+  /\ (forall k, In k keys -> exists x, In x kept /\ cmp k x = 0).
+Proof. exact s_new_choice. Qed.
+Print Assumptions C01_new_choice.
+
 (* The in-place rebuild (treeToVine, then vineToTree with the exact node count) never runs out of
-   chain (no nil dereference in rotateLeft), never runs out of fuel, and keeps the in-order
-   sequence element for element. *)
+   chain, never runs out of fuel, and keeps the in-order sequence element for element. *)
 Theorem C01_rewrite_keeps_order : forall (T : Type) (t : tree T) (sz : Z),
   sz = size t -> exists t', rewrite t sz = Ok t' /\ inorder t' = inorder t.
 Proof. exact rewrite_ok. Qed.
 Print Assumptions C01_rewrite_keeps_order.
 
-Example C01_rewrite_keeps_order_ex :
-  rewrite (Node (Node (Node (Node Leaf 1 Leaf) 2 Leaf) 3 Leaf) 4 (Node Leaf 5 (Node Leaf 6 (Node Leaf 7 Leaf)))) 7
-  = Ok (Node (Node (Node Leaf 1 Leaf) 2 (Node Leaf 3 Leaf)) 4 (Node (Node Leaf 5 Leaf) 6 (Node Leaf 7 Leaf))).
-Proof. vm_compute. reflexivity. Qed.
+(* The count Remove hands to the delete-side rebuild is exactly the number of nodes left. *)
+Theorem C01_remove_rebuild_count : forall (T : Type) (cmp : T -> T -> Z) (t : Tree T) l k del,
+  tsize t = Z.of_nat (length l) -> snd (s_remove cmp k l) = true ->
+  inorder del = fst (s_remove cmp k l) ->
+  Gen.StreeConst.rem_rewrite_size (Gen.StreeConst.rem_size (tsize t)) = size del.
+Proof. exact Remove_rewrite_size_exact. Qed.
+Print Assumptions C01_remove_rebuild_count.
 
 (* New's balanced build from the sorted, compacted keys holds exactly those keys in that order. *)
 Theorem C01_extract_keeps_order : forall (T : Type) (nodes : list T),
   exists t, extract nodes = Ok t /\ inorder t = nodes.
 Proof. exact extract_ok. Qed.
 Print Assumptions C01_extract_keeps_order.
+
+(* ---- the hypotheses are satisfiable: pairs (key, payload) compared by key *)
+Definition cmp_key (a b : Z * Z) : Z := fst a - fst b.
+Definition lim_log (b n : Z) : Z := Z.log2 n.
+
+Lemma cmp_key_preorder : total_preorder cmp_key.
+Proof.
+  constructor; unfold cmp_key; intros.
+  - rewrite <- Z.sgn_opp. f_equal. lia.
+  - lia.
+Qed.
+
+Definition ex_ops : list (op (Z * Z)) :=
+  [ONew 0 [(5,1); (1,2); (5,3); (3,4)] [1; 3; 2]%nat;      (* keeps (5,3), not (5,1) *)
+   OAdd 0%nat (6,5); OAdd 0%nat (7,6); OAdd 0%nat (8,7); OAdd 0%nat (9,8);   (* scapegoat rebuilds *)
+   OAdd 0%nat (3,9);                                          (* present: refused, (3,4) stays *)
+   OReplace 0%nat (1,10);                                     (* present: replaced *)
+   OClone 0%nat;
+   ORemove 0%nat (5,0); ORemove 0%nat (3,0); ORemove 0%nat (1,0); ORemove 0%nat (6,0);   (* delete-side rebuild *)
+   OInorder 0%nat None; OInorder 1%nat (Some 1%nat); OInorderAfter 1%nat (4,0) None;
+   OGet 1%nat (5,0); OMin 1%nat; OMax 0%nat; OLen 0%nat; OIsEmpty 1%nat].
+
+Example C01_history_ex :
+  total_preorder cmp_key /\
+  run cmp_key lim_log ex_ops =
+  [RUnit; RBool true; RBool true; RBool true; RBool true; RBool false; RBool false; RUnit;
+   RBool true; RBool true; RBool true; RBool true;
+   RList [(7,6); (8,7); (9,8)]; RList [(1,10); (3,4)]; RList [(5,3); (6,5); (7,6); (8,7); (9,8)];
+   ROpt (Some (5,3)); ROpt (Some (1,10)); ROpt (Some (9,8)); RInt 3; RBool false].
+Proof. split; [exact cmp_key_preorder|vm_compute; reflexivity]. Qed.
+
+Example C01_no_failure_ex : Forall (ok_new (Z * Z) cmp_key) ex_ops.
+Proof. repeat constructor; try (right; vm_compute; discriminate); vm_compute; discriminate. Qed.
+
+Example C01_new_choice_ex : s_new cmp_key [(5,1); (1,2); (5,3); (3,4)] [1; 3; 2]%nat = Some [(1,2); (3,4); (5,3)].
+Proof. vm_compute. reflexivity. Qed.
+
+Example C01_rewrite_keeps_order_ex :
+  rewrite (Node (Node (Node (Node Leaf 1 Leaf) 2 Leaf) 3 Leaf) 4 (Node Leaf 5 (Node Leaf 6 (Node Leaf 7 Leaf)))) 7
+  = Ok (Node (Node (Node Leaf 1 Leaf) 2 (Node Leaf 3 Leaf)) 4 (Node (Node Leaf 5 Leaf) 6 (Node Leaf 7 Leaf))).
+Proof. vm_compute. reflexivity. Qed.
+
+Example C01_remove_rebuild_count_ex :
+  let t := mkTree (Node (Node Leaf 1 Leaf) 2 (Node Leaf 3 Leaf)) 500 3 9 in
+  tsize t = Z.of_nat (length [1; 2; 3]) /\ snd (s_remove Z.sub 2 [1; 2; 3]) = true
+  /\ inorder (Node (Node Leaf 1 Leaf) 3 Leaf) = fst (s_remove Z.sub 2 [1; 2; 3]).
+Proof. vm_compute. repeat split. Qed.
 
 Example C01_extract_keeps_order_ex :
   extract [1; 2; 3; 4; 5; 6] = Ok (Node (Node Leaf 1 (Node Leaf 2 Leaf)) 3 (Node (Node Leaf 4 Leaf) 5 (Node Leaf 6 Leaf))).
